@@ -162,7 +162,7 @@ func (e *engine) idBytesCase(b []byte, gen string, wantReject bool) {
 
 func (e *engine) runC10() {
 	e.rep.Rule = "peer IDs: random Ed25519 keys through IDFromPublicKey/ExtractPublicKey/MatchesPublicKey/base58 text; malformed multihashes (truncated and 9/10/11-byte varints, length ±1, non-identity codes, non-minimal varints), random and non-base58 text; distinct = distinct op line"
-	e.rep.Require("idFromPub", "extract.ok", "extract.err", "idFromBytes.ok", "idFromBytes.err", "idFromBytes.ok.nonidentity", "b58dec.ok", "b58dec.err", "matches.1", "matches.0", "idB58Decode.ok", "idB58Decode.err")
+	e.rep.Require("idFromPub", "extract.ok", "extract.err", "idFromBytes.ok", "idFromBytes.err", "idFromBytes.ok.nonidentity", "b58dec.ok", "b58dec.err", "matches.1", "matches.0", "idB58Decode.ok", "idB58Decode.err", "alias.extracted")
 	n := 60 * e.a.Scale
 	var ids [][]byte
 	var pubs []ed25519.PublicKey
@@ -266,6 +266,30 @@ func (e *engine) runC10() {
 			}
 			model := e.m.Query(op)
 			e.rep.Compare(op, model, impl, "matches."+model[3:], "codec.matches:alias-"+name, mon)
+			// the key object that comes OUT of the alias ID is the same key: its ID is the ID of
+			// the key (a function of the key, not of where the key object came from), and the
+			// alias still does not match it
+			if xk, err := peer.ID(alias).ExtractPublicKey(); err == nil {
+				e.rep.Branches["alias.extracted"]++
+				canon, _ := peer.IDFromPublicKey(pk)
+				if raw, _ := xk.Raw(); bytes.Equal(raw, k) {
+					xid, xerr := peer.IDFromPublicKey(xk)
+					what := ""
+					switch {
+					case xerr != nil:
+						what = "IDFromPublicKey fails on a key extracted from an ID: " + xerr.Error()
+					case xid != canon:
+						what = fmt.Sprintf("one key has two peer IDs: the key object extracted from the %s encoding derives ID %s, the same key unmarshalled from its raw bytes derives %s", name, lib.Hex([]byte(xid)), lib.Hex([]byte(canon)))
+					case peer.ID(alias).MatchesPublicKey(xk):
+						what = "an ID that was not derived from the key (non-canonical encoding: " + name + ") matches the key object extracted from it"
+					case !canon.MatchesPublicKey(xk):
+						what = "the ID derived from a key does not match the equal key object extracted from its " + name + " encoding"
+					}
+					if what != "" {
+						e.rep.Disagree(lib.Disagreement{Op: "codec.aliasKey id=" + lib.Hex(alias), Monitor: "confirmed", What: what, Key: "codec.aliasKey:" + name, Branch: "alias.extracted"})
+					}
+				}
+			}
 		}
 	}
 	// malformed multihashes
